@@ -131,6 +131,12 @@ var c09Stores = []c09Case{
 	{"{ x = $.n; x = 9; y = $.arr; z = $.obj.k.z; z = 8 }", func(d map[string]any) {}, ""},
 	{"{ a.b.c = 1; a.l[2] = 2; u = 5; u = 'q'; print a.b.c, a.l.length(), u }", func(d map[string]any) {}, "1 3 q\n"},
 	{"{ x = 5; x.y = 1 }", nil, ""},
+	// keys spelled like methods are ordinary keys, also under a parent that does not exist yet
+	{"{ $.meta.length = 2; $.stats.pluck = 1; $.obj.k.push = 3; print $.obj.length(), [1, 2].length(), $.meta.length, {a: 1}.pluck('a') }", func(d map[string]any) {
+		d["meta"] = map[string]any{"length": 2.0}
+		d["stats"] = map[string]any{"pluck": 1.0}
+		obj(obj(d, "obj"), "k")["push"] = 3.0
+	}, "2 2 2 {\"a\": 1}\n"},
 	// the right-hand side creates the same missing parent that the target needs
 	{"{ a.x.p = a.x.q = 1; print a }", func(d map[string]any) {}, "{\"x\": {\"p\": 1, \"q\": 1}}\n"},
 	{"{ $.obj.new.p = $.obj.new.q = 1 }", func(d map[string]any) { obj(d, "obj")["new"] = map[string]any{"p": 1.0, "q": 1.0} }, ""},
